@@ -15,13 +15,8 @@ Definition has_logs (ch : chain) (b : N) : bool :=
   match visible ch b with [] => false | _ => true end.
 
 (* Within a block the node lists logs by log index, so transaction indices do not decrease. *)
-Fixpoint nondecr (l : list N) : Prop :=
-  match l with
-  | a :: (b :: _) as t => a <= b /\ nondecr t
-  | _ => True
-  end.
-
-Definition chain_ordered (ch : chain) : Prop := forall b, nondecr (map c_tx (ch b)).
+Definition chain_ordered (ch : chain) : Prop :=
+  forall b, StronglySorted N.le (map c_tx (ch b)).
 
 (* the entries for the blocks a, a+1, ..., a+n-1 that have non-removed logs, in block order *)
 Fixpoint span (ch : chain) (n : nat) (a : N) : list entry :=
